@@ -32,6 +32,26 @@ def generate(tier, rng):
                 e.extra['shape'] = 'enum_ci=%s style=%s kind=%s' % (eci, e.style, kind[0])
                 enums.append(e)
                 n += 1
+    # COUNT shapes: enums whose generated match has exactly one arm (or none), with disabled / default variants around it
+    for j, (eci, vci) in enumerate(((True, None), (False, True), (True, False), (False, None))):
+        for shape in ('only', 'disabled-first', 'default-last', 'default-first', 'two-spellings', 'none'):
+            e = ESpec(id='c12s_%d' % n, name='EnC12s%d' % n, ci=eci, derives=['EnumString'], feats=['parse'])
+            one = VSpec(ident='OnlyArm', ci=vci)
+            if j % 2:
+                one.ser = ['Mixed-Case_%d' % j]
+            if shape == 'two-spellings':
+                one.ser = ['Mixed-Case_%d' % j, 'otherSpelling']
+            vs = [one] if shape != 'none' else []
+            if shape == 'disabled-first':
+                vs = [VSpec(ident='Off', dis=True, ci=True)] + vs + [VSpec(ident='OffToo', dis=True)]
+            if shape in ('default-last', 'none'):
+                vs = vs + [VSpec(ident='CatchAll', kind='tuple', ftypes=['String'], default=True)]
+            if shape == 'default-first':
+                vs = [VSpec(ident='CatchAll', kind='tuple', ftypes=['String'], default=True)] + vs
+            e.variants = vs
+            e.extra['shape'] = 'one-arm enum_ci=%s var_ci=%s %s' % (eci, vci, shape)
+            enums.append(e)
+            n += 1
     info = strcorpus.query_model(enums)
     maxk = 8 if tier == 'quick' else 12
     for e in enums:
